@@ -1,1 +1,11 @@
-"""Model-checking substrate for mill1000/midea-msmart (see /verif/DESIGN.md)."""
+"""Model-checking substrate for mill1000/midea-msmart (see /verif/DESIGN.md).
+
+Importing this package pins the library under test: `msmart` is imported from
+$MSMART_REPO (default /repo), i.e. from the current working tree, never from a copy.
+"""
+import os
+import sys
+
+REPO = os.environ.get("MSMART_REPO", "/repo")
+if not sys.path or sys.path[0] != REPO:
+    sys.path.insert(0, REPO)
